@@ -100,3 +100,57 @@ theorem cerBool_kernel (cfg : DecCfg) (hs : cfg.boolStrict = true) (h : Bytes) (
     simp [this, liftBool, throw, throwThe, MonadExceptOf.throw]
 
 end Asn1.Kernels
+
+namespace Asn1.Kernels
+open Py
+
+/-! ### INTEGER contents: `from_bytes` and the body of `IntegerPayloadDecoder.valueDecoder` -/
+
+theorem natOfBE_bytes : ∀ (bs : Bytes) (acc : Int), Py.natOfBE (bytesInts bs) acc = intFromBytesAux acc bs
+  | [], _ => rfl
+  | b :: rest, acc => by
+    simp only [bytesInts_cons, Py.natOfBE, intFromBytesAux]
+    exact natOfBE_bytes rest _
+
+theorem intFromBytesAux_shift : ∀ (bs : Bytes) (a d : Int),
+    intFromBytesAux (a + d) bs = intFromBytesAux a bs + d * (256 : Int) ^ bs.length
+  | [], a, d => by simp [intFromBytesAux]
+  | b :: rest, a, d => by
+    simp only [intFromBytesAux, List.length_cons]
+    have : (a + d) * 256 + (b.toNat : Int) = (a * 256 + b.toNat) + d * 256 := by
+      simp only [Int.add_mul]; omega
+    rw [this, intFromBytesAux_shift rest _ (d * 256), Int.pow_succ, Int.mul_assoc, Int.mul_comm 256]
+
+/-- PyLite's `int.from_bytes(..., signed=True)` is the model's `intFromBytes` -/
+theorem fromBytes_signed (bs : Bytes) : Py.fromBytes (bytesInts bs) true = intFromBytes bs := by
+  cases bs with
+  | nil => rfl
+  | cons b rest =>
+    have hb := UInt8.toNat_lt b
+    simp only [Py.fromBytes, bytesInts_cons, Bool.true_and]
+    rw [show ((b.toNat : Int) :: bytesInts rest) = bytesInts (b :: rest) from rfl, natOfBE_bytes]
+    simp only [intFromBytes, intFromBytesAux]
+    by_cases h : b.toNat < 128
+    · have : ¬ ((b.toNat : Int) ≥ 128) := by omega
+      simp [h, this]
+    · have h' : ((b.toNat : Int) ≥ 128) := by omega
+      simp only [h, h', decide_true, if_true, if_false]
+      have := intFromBytesAux_shift rest ((b.toNat : Int) - 256) 256
+      have e1 : (b.toNat : Int) - 256 + 256 = 0 * 256 + (b.toNat : Int) := by omega
+      rw [e1] at this
+      rw [this]
+      have hl : (bytesInts (b :: rest)).length = rest.length + 1 := by simp [bytesInts]
+      rw [hl, Int.pow_succ]
+      omega
+
+/-- **the body of `IntegerPayloadDecoder.valueDecoder`** (translated; calls the translated `from_bytes`) **is the
+    model's `intFromBytes`**, for every contents -/
+theorem intDecode_kernel (c : Bytes) : GenK.intDecode (bytesInts c) = .ok (intFromBytes c) := by
+  unfold GenK.intDecode GenK.fromBytes
+  cases c with
+  | nil => rfl
+  | cons b rest =>
+    simp only [bytesInts_isEmpty, List.isEmpty_cons, Bool.not_false, if_true, bind, Except.bind, pure, Except.pure,
+      fromBytes_signed]
+
+end Asn1.Kernels
